@@ -13,6 +13,7 @@ mod h_c05;
 mod h_c09;
 mod h_c10;
 mod h_c12;
+mod h_zc;
 mod kit;
 
 use kit::*;
@@ -22,6 +23,7 @@ fn harnesses() -> Vec<Box<dyn Harness>> {
         Box::new(h_c03::QueueHarness { kind: "iq" }),
         Box::new(h_c03::QueueHarness { kind: "oq" }),
         Box::new(h_c03::QueueHarness { kind: "q" }),
+        Box::new(h_zc::ConnDataHarness),
         Box::new(h_c05::EventHarness { counting: false }),
         Box::new(h_c05::EventHarness { counting: true }),
         Box::new(h_c09::PoolHarness { kind: "uis" }),
@@ -30,6 +32,7 @@ fn harnesses() -> Vec<Box<dyn Harness>> {
         Box::new(h_c10::ContainerHarness),
         Box::new(h_c12::AtomicHarness { typed: false }),
         Box::new(h_c12::AtomicHarness { typed: true }),
+        Box::new(h_zc::ConnLifecycleHarness),
     ]
 }
 
@@ -56,6 +59,7 @@ fn spec_for<'a>(hs: &'a [Box<dyn Harness>], prop: &'a str) -> CheckSpec<'a> {
         "C05" => "one evaluation = one simulated execution of 1..3 notifier threads (1..4 notify calls each, ids 0..2) racing a listener thread that issues a generated mix of try/timed waits and then blocks until a terminator id arrives; trigger capacity, fail_when_buffer_is_full, EINTR and notifier death are drawn per run; a deadlock with an undelivered successful notification is a lost wake-up. distinct_nontrivial = distinct (plan, schedule/fault signature) pairs among runs with at least one context switch or injected fault",
         "C10" => "one evaluation = one simulated execution of 1..2 writer threads (generated add/remove/recover sequences with unique 32-byte self-checking records, capacity 1..3 so that slots are reused) racing a reader thread that refreshes its view 1..5 times; every view is judged against the add/remove history (torn, never added, removed before the refresh began, added before and missing), plus exactness at quiescence. distinct_nontrivial = distinct (plan, schedule/fault signature) pairs among runs with at least one context switch or injected fault",
         "C12" => "one evaluation = one simulated execution of a writer performing up to 6 updates (typed store or two-step write-cell update, value sizes 1..200 bytes, alignments 1..64, self-checking versioned payloads), an optional second thread competing for the producer role, and 1..2 readers loading 1..5 times; in sc+p1 runs the writer is preempted inside its plain copy. distinct_nontrivial = distinct (plan, schedule/fault signature) pairs among runs with at least one context switch or injected fault",
+        "C13" => "one evaluation = one simulated execution of 2..3 threads issuing generated attach (matching or mismatching parameters) / detach / crash-and-forced-remove operations for the sender and receiver role of one connection name over process-local storage; role exclusivity, existence while attached, removal after the last detach and re-usability of the name are checked. distinct_nontrivial = distinct (plan, schedule/fault signature) pairs among runs with at least one context switch or injected fault",
         "C09" => "one evaluation = one simulated execution of 2..3 threads doing generated acquire/release(/lock-if-last) sequences on a real index set or pool allocator of capacity 1..4, one run in four of the robust set kills a thread mid-operation and recovers its owner id; distinct_nontrivial = distinct (plan, schedule/fault signature) pairs among runs with at least one context switch or injected fault",
         _ => "one evaluation = one simulated execution of a generated scenario; distinct_nontrivial = distinct (plan, schedule/fault signature) pairs among runs with at least one context switch or injected fault",
     };
